@@ -54,6 +54,33 @@ Arguments rt_ordered {Op Res}.
 Arguments linearization {St Op Res}.
 Arguments linearizable {St Op Res}.
 
+(* legality is monotone in the specification and is transported along a simulation *)
+Lemma legal_mono {St Op Res} (spec1 spec2 : St -> Op -> Res -> St -> Prop) :
+  (forall s o r s', spec1 s o r s' -> spec2 s o r s') ->
+  forall s l s', legal spec1 s l s' -> legal spec2 s l s'.
+Proof. intros H s l s' HL. induction HL; econstructor; eauto. Qed.
+
+Lemma legal_sim {St1 St2 Op Res} (spec1 : St1 -> Op -> Res -> St1 -> Prop)
+      (spec2 : St2 -> Op -> Res -> St2 -> Prop) (R : St1 -> St2 -> Prop) :
+  (forall s a o r s', R s a -> spec1 s o r s' -> exists a', spec2 a o r a' /\ R s' a') ->
+  forall s l s', legal spec1 s l s' -> forall a, R s a -> exists a', legal spec2 a l a' /\ R s' a'.
+Proof.
+  intros H s l s' HL. induction HL; intros a Ha.
+  - exists a. split; [constructor|exact Ha].
+  - destruct (H _ _ _ _ _ Ha H0) as [a1 [Hs Hr]]. destruct (IHHL _ Hr) as [a2 [Hl Hr2]].
+    exists a2. split; [econstructor; eauto|exact Hr2].
+Qed.
+
+Lemma linearizable_sim {St1 St2 Op Res} (spec1 : St1 -> Op -> Res -> St1 -> Prop)
+      (spec2 : St2 -> Op -> Res -> St2 -> Prop) (R : St1 -> St2 -> Prop) :
+  (forall s a o r s', R s a -> spec1 s o r s' -> exists a', spec2 a o r a' /\ R s' a') ->
+  forall s a h l s', R s a -> linearization spec1 s h l s' ->
+  exists a', linearization spec2 a h l a' /\ R s' a'.
+Proof.
+  intros H s a h l s' Ha [Hp [Hl Ho]]. destruct (legal_sim _ _ _ H _ _ _ Hl _ Ha) as [a' [Hl' Hr]].
+  exists a'. split; [|exact Hr]. repeat split; assumption.
+Qed.
+
 (* ------------------------------------------------------------------------------------- *)
 (* the checker, for a functional specification *)
 Section Check.
